@@ -298,6 +298,8 @@ def check(ctx):
         for node in ast.walk(fn.node):
             if isinstance(node, ast.Call) and prog.function_of(node) is fn:
                 c = canon(node.func)
+                if any(isinstance(a_, ast.Lambda) for a_ in prog.ancestors(node)) and fn is R.bads_init:
+                    continue  # inside a stored wrapper of the callable: it runs when self.<cons> is called (judged there; C02-R5 decides the wrapper)
                 if c == f"self.{R.cons_attr}" and fn.cls is R.bads or (isinstance(node.func, ast.Name) and node.func.id == R.cons_param and fn in (R.bads_init, val)) or (fn is fs.fn and c == fs.p_cons):
                     cons_calls.append((fn, node))
     init = R.bads_init
